@@ -38,7 +38,17 @@ A_CLOSE, B_CLOSE = 1.0, 1.0005
 
 
 class Boom(Exception):
-    """the exception raised by the `raise` statement of a program"""
+    """an ordinary exception raised by the `raise` statement of a program"""
+
+
+class BaseBoom(BaseException):
+    """a custom exception outside the `Exception` hierarchy (like KeyboardInterrupt)"""
+
+
+# the kinds of exception a program's `raise` uses; the model has one `Raise` (the context must treat them alike)
+EXC_KINDS = {"Exception": Boom, "BaseException": BaseBoom, "KeyboardInterrupt": KeyboardInterrupt,
+             "SystemExit": SystemExit, "GeneratorExit": GeneratorExit}
+EXC_NAMES = list(EXC_KINDS)
 
 
 # --------------------------------------------------------------------------- tokens <-> Python objects
@@ -60,7 +70,11 @@ class World:
         self.keep: list = []
         self.trace: list = []
         self.problems: list = []  # oracle findings of the current program: (signature, what)
+        self.thrown: list = []  # the exception instances raised by the current program
         self.unknown = 0
+
+    def ours(self, e):
+        return any(e is x for x in self.thrown)
 
     def obj(self, key, tok):
         if tok is None:
@@ -109,6 +123,7 @@ class World:
         self.keep = []
         self.trace = []
         self.problems = []
+        self.thrown = []
 
     def helpers(self):
         try:
@@ -166,7 +181,9 @@ def execute(p, W, path="p"):
         W.trace.append(W.observe())
         return
     if kind == "raise":
-        raise Boom()
+        e = EXC_KINDS[p[1] if len(p) > 1 else "Exception"]("c20")
+        W.thrown.append(e)
+        raise e
     if kind == "seq":
         execute(p[1], W, path + ".0")
         execute(p[2], W, path + ".1")
@@ -174,14 +191,15 @@ def execute(p, W, path="p"):
     if kind == "catch":
         try:
             execute(p[1], W, path + ".c")
-        except Boom:
-            pass
+        except BaseException as e:
+            if not W.ours(e):
+                raise
         return
     assert kind == "ctx", kind
     # ---- `with fl.settings.context(...)`, with the direct oracle around it (reads only)
     kw = {k: W.obj(k, t) for k, t in p[1]}
     before = dict(vars(S))
-    body_raised = False
+    body_raised = None
     pending = None
     inside = left = None
     h_inside = None
@@ -191,12 +209,16 @@ def execute(p, W, path="p"):
             h_inside = W.helpers()
             try:
                 execute(p[2], W, path + ".b")
-            except Boom:
-                body_raised = True
+            except BaseException as e:
+                if not W.ours(e):
+                    raise
+                body_raised = e
                 raise
             finally:
                 left = dict(vars(S))
-    except Boom as e:
+    except BaseException as e:
+        if not W.ours(e):
+            raise
         pending = e
     after = dict(vars(S))
     h_after = W.helpers()
@@ -204,8 +226,9 @@ def execute(p, W, path="p"):
     def bad(sig, what):
         W.problems.append((sig, f"{what} (context at {path}, kwargs {[(k, t) for k, t in p[1]]})"))
 
-    if (pending is not None) != body_raised:
-        bad("context:exception", f"body raised={body_raised} but the context {'raised' if pending else 'swallowed it'}")
+    if pending is not body_raised:
+        bad("context:exception", f"the body raised {body_raised!r} but the context {'raised ' + repr(pending) if pending is not None else 'swallowed it'}")
+    exit_kind = "normal" if body_raised is None else type(body_raised).__name__
     if inside is None or left is None:
         bad("context:enter", "the body was never entered")
     else:
@@ -219,7 +242,7 @@ def execute(p, W, path="p"):
                 if not same(inside.get(s), kw[k]):
                     bad("context:enter", f"{k} is {inside.get(s)!r} inside, not the temporary {kw[k]!r}")
                 if not same(after.get(s), before.get(s)):
-                    bad("context:restore", f"{k} was {before.get(s)!r} before and is {after.get(s)!r} after the context ({'exception' if body_raised else 'normal'} exit)")
+                    bad("context:restore", f"{k} was {before.get(s)!r} before and is {after.get(s)!r} after the context ({exit_kind} exit)")
             else:
                 if not same(inside.get(s), before.get(s)):
                     bad("context:frame", f"{k} is not named but changed on entry: {before.get(s)!r} -> {inside.get(s)!r}")
@@ -242,7 +265,9 @@ def run_impl(W, initial, prog):
     raised = False
     try:
         execute(prog, W)
-    except Boom:
+    except BaseException as e:
+        if not W.ours(e):
+            raise
         raised = True
     after = W.observe()
     return after[0], raised, list(W.trace), after, list(W.problems)
@@ -297,7 +322,7 @@ def case_lit(initial, prog, final, raised, trace, after):
 
 
 # --------------------------------------------------------------------------- program generation
-OBS, RAISE, SKIP = ("observe",), ("raise",), ("skip",)
+OBS, SKIP = ("observe",), ("skip",)
 
 
 def seq(*ps):
@@ -311,58 +336,88 @@ def seq(*ps):
 
 
 class Tokens:
-    """hands out tokens per setting so that neighbouring uses differ (cycling through the pool from a random start)"""
+    """hands out tokens per setting so that neighbouring uses differ (cycling through the pool from a random start);
+    `next(k, avoid)` never returns the initial value nor `avoid` (the value current at that point)"""
 
     def __init__(self, rng, initial):
         self.n = {k: rng.randrange(len(POOL[k])) for k in KEYS}
         self.initial = initial
+        self.last = dict(initial)  # the token most recently handed out (or re-used) per setting
         self.fresh = 1000
+        self.rng = rng
 
-    def next(self, k):
-        for _ in range(len(POOL[k])):
+    def next(self, k, avoid=None):
+        t = None
+        for _ in range(len(POOL[k]) + 1):
             t = POOL[k][self.n[k] % len(POOL[k])]
             self.n[k] += 1
-            if t != self.initial[k]:
-                return t
+            if t != self.initial[k] and t != avoid:
+                break
+        self.last[k] = t
         return t
 
     def next_fresh(self):
         self.fresh += 1
         return self.fresh
 
+    def exc(self):
+        return ("raise", self.rng.choice(EXC_NAMES))
 
-def structured(rng, subsets, raise_pos, assign_spec, explicit_none):
+
+def structured(rng, subsets, raise_pos, assign_spec, explicit_none, rep_p=0.0, exc=None):
     """Observe; Ctx n1 (Observe; slot; Ctx n2 (...) ; slot; Observe).  Positions 0..2d-2 run from the outermost
-    pre-slot through the innermost slot to the outermost post-slot.  assign_spec = (level, 'named'|'unnamed')."""
+    pre-slot through the innermost slot to the outermost post-slot.  assign_spec = (level, 'named'|'unnamed'): one
+    direct assignment in the pre-slot of that level.  With probability rep_p a named setting is given the value it
+    ALREADY HAS at that point (the default, the enclosing context's temporary value, or a directly assigned one);
+    a 'named' assignment prefers such a setting.  exc = the kind of exception raised at raise_pos."""
     d = len(subsets)
     initial = dict(DEFAULT)
     T = Tokens(rng, initial)
     slots = {i: [] for i in range(2 * d - 1)}
-    meta = {"assign": None}
-    if assign_spec is not None:
-        lvl, kind = assign_spec
-        named = [k for k in KEYS if k in subsets[lvl]]
-        unnamed = [k for k in KEYS if k not in subsets[lvl]]
-        cand = named if (kind == "named" and named) or not unnamed else unnamed
-        key = rng.choice(cand)
-        slots[lvl].append(("assign", key, T.next(key)))
-        meta["assign"] = (lvl, "named" if key in subsets[lvl] else "unnamed", key)
-    if raise_pos is not None:
-        slots[raise_pos].append(RAISE)
+    meta = {"repeats": 0, "assign_to_repeated": False, "exc": None}
+    cur = dict(initial)  # the value of each setting at the point reached (no raise before the innermost slot matters here)
     kws = []
     for lvl in range(d):
         kw = []
+        repeated = []
         for k in KEYS:
             if k in subsets[lvl]:
-                kw.append((k, T.next(k)))
+                if cur[k] is not None and rng.random() < rep_p:
+                    tok = cur[k]
+                    repeated.append(k)
+                else:
+                    tok = T.next(k, cur[k])
+                kw.append((k, tok))
+                cur[k] = tok
             elif explicit_none:
                 kw.append((k, None))
         kws.append(kw)
+        meta["repeats"] += len(repeated)
+        if assign_spec is not None and assign_spec[0] == lvl:
+            kind = assign_spec[1]
+            named = [k for k in KEYS if k in subsets[lvl]]
+            unnamed = [k for k in KEYS if k not in subsets[lvl]]
+            if (kind == "named" and named) or not unnamed:
+                cand = repeated if repeated and rng.random() < 0.8 else named
+            else:
+                cand = unnamed
+            key = rng.choice(cand)
+            tok = T.next(key, cur[key])
+            slots[lvl].append(("assign", key, tok))
+            cur[key] = tok
+            meta["assign_to_repeated"] = key in repeated
+    if raise_pos is not None:
+        meta["exc"] = exc or rng.choice(EXC_NAMES)
+        slots[raise_pos].append(("raise", meta["exc"]))
     body = seq(OBS, *slots[d - 1], OBS)
     for lvl in range(d - 2, -1, -1):
         body = seq(OBS, *slots[lvl], ("ctx", kws[lvl + 1], body), *slots[2 * d - 2 - lvl], OBS)
     prog = seq(OBS, ("ctx", kws[0], body))
     return initial, prog, meta
+
+
+def rep_prob(rng):
+    return rng.choice([0.0, 0.0, 0.4, 0.4, 1.0])
 
 
 def random_subset(rng):
@@ -380,7 +435,7 @@ def random_structured(rng, d):
     subsets = [random_subset(rng) for _ in range(d)]
     raise_pos = None if rng.random() < 0.35 else rng.randrange(2 * d - 1)
     assign_spec = None if rng.random() < 0.25 else (rng.randrange(d), rng.choice(["named", "unnamed"]))
-    return structured(rng, subsets, raise_pos, assign_spec, rng.random() < 0.3)
+    return structured(rng, subsets, raise_pos, assign_spec, rng.random() < 0.3, rep_prob(rng))
 
 
 def free_form(rng):
@@ -404,7 +459,7 @@ def free_form(rng):
             if r < 0.8:
                 return ("readfm", T.next_fresh())
             if r < 0.92:
-                return RAISE
+                return T.exc()
             return SKIP
         r = rng.random()
         if r < 0.45 and depth_left > 0:
@@ -413,7 +468,8 @@ def free_form(rng):
             none_too = rng.random() < 0.3
             for k in KEYS:
                 if k in sub:
-                    kw.append((k, T.next(k)))
+                    # often the token handed out last for this setting: usually the value it has right now
+                    kw.append((k, T.last[k] if T.last[k] is not None and rng.random() < 0.35 else T.next(k)))
                 elif none_too and rng.random() < 0.5:
                     kw.append((k, None))
             return ("ctx", kw, seq(OBS, gen(depth_left - 1, size - 1)))
@@ -423,7 +479,7 @@ def free_form(rng):
         return ("seq", gen(depth_left, a), gen(depth_left, size - a))
 
     prog = seq(OBS, gen(4, rng.randrange(3, 14)))
-    return initial, prog, {"assign": None}
+    return initial, prog, {"repeats": 0, "assign_to_repeated": False, "exc": None}
 
 
 def partitions(rng, n):
@@ -456,12 +512,22 @@ def generate(ctx):
     progs = []
     all_subsets = [frozenset(k for i, k in enumerate(KEYS) if m >> i & 1) for m in range(128)]
     thorough = ctx.tier == "thorough"
+    kinds = itertools.cycle(EXC_NAMES)  # the exhaustive families go round the exception kinds
+    # a dedicated family: a context naming settings at the values they already have (defaults; an inner context
+    # repeating the outer one), the body assigning one of them directly, every exit kind, depth 1-3
+    for d in (1, 2, 3):
+        for _ in range(ctx.n(100, 1500)):
+            subsets = [random_subset(rng) or frozenset([rng.choice(KEYS)]) for _ in range(d)]
+            if d > 1 and rng.random() < 0.6:
+                subsets[-1] = subsets[-1] | frozenset(rng.sample(sorted(subsets[-2]), 1))
+            raise_pos = rng.choice([None, d - 1, rng.randrange(2 * d - 1)])
+            progs.append(("repeat-current",) + structured(rng, subsets, raise_pos, (rng.randrange(d), "named"), rng.random() < 0.2, rng.choice([0.7, 1.0]), next(kinds)))
     # depth 1: every subset of the seven settings, leaving normally and by an exception
     for sub in all_subsets:
         for raise_pos in (None, 0):
             specs = assign_specs(1) if thorough else [rng.choice(assign_specs(1))]
             for spec in specs:
-                progs.append(("exhaustive-d1",) + structured(rng, [sub], raise_pos, spec, rng.random() < 0.3))
+                progs.append(("exhaustive-d1",) + structured(rng, [sub], raise_pos, spec, rng.random() < 0.3, rep_prob(rng), next(kinds)))
     if thorough:
         # depth 2 and 3: every tuple of unions of the blocks of a 3-block partition of the settings (so every
         # block takes every named/unnamed pattern over the levels) x raise at every position or none x one direct
@@ -472,7 +538,7 @@ def generate(ctx):
                 for subsets in itertools.product(us, repeat=d):
                     for raise_pos in [None] + list(range(2 * d - 1)):
                         for spec in assign_specs(d):
-                            progs.append((f"exhaustive-d{d}",) + structured(rng, list(subsets), raise_pos, spec, rng.random() < 0.2))
+                            progs.append((f"exhaustive-d{d}",) + structured(rng, list(subsets), raise_pos, spec, rng.random() < 0.2, rep_prob(rng), next(kinds)))
     for d, n in ((2, ctx.n(500, 3000)), (3, ctx.n(800, 5000)), (4, ctx.n(400, 6000))):
         for _ in range(n):
             progs.append((f"sampled-d{d}",) + random_structured(rng, d))
@@ -530,7 +596,10 @@ def run(ctx, build, verdict, ev):
             d = ctx_depth(prog)
             for key in (fam, f"depth-{d}", "exception-escapes" if raised else "normal-exit",
                         "with-direct-assignment" if has(prog, "assign") else "no-assignment",
-                        "with-catch" if has(prog, "catch") else None, "with-lazy-factory" if has(prog, "readfm") else None):
+                        "with-catch" if has(prog, "catch") else None, "with-lazy-factory" if has(prog, "readfm") else None,
+                        "names-a-current-value" if meta["repeats"] else None,
+                        "assigns-a-setting-named-at-its-current-value" if meta["assign_to_repeated"] else None,
+                        f"raise-kind-{meta['exc']}" if meta["exc"] else None):
                 if key:
                     dist[key] = dist.get(key, 0) + 1
             if d >= 1 and len({o[0] for o in trace}) > 1:
@@ -569,7 +638,9 @@ def run(ctx, build, verdict, ev):
     c["rule"] = ("programs over fl.settings: depth 1 = every one of the 128 subsets of the 7 settings x normal/exception exit"
                  + (" x every direct-assignment variant; depth 2 and 3 = every tuple of block unions of three 3-block partitions of the settings"
                     " x a raise at every position or none x one direct assignment per level to a named/unnamed setting or none; " if ctx.tier == "thorough" else "; ")
-                 + "sampled nestings of depth 2-4 over random subsets; free-form random programs (Catch, lazy factory manager, assignment of None, "
+                 + "a family of depth 1-3 nestings naming settings at the value they already have (default / the enclosing temporary value) with a direct assignment to such a setting inside; "
+                 "every raise uses one of five exception kinds (Exception subclass, custom BaseException subclass, KeyboardInterrupt, SystemExit, GeneratorExit), the same instance must escape; "
+                 "sampled nestings of depth 2-4 over random subsets; free-form random programs (Catch, lazy factory manager, assignment of None, "
                  "random initial record). Each observes vars(fl.settings), Op.str(1/3), Op.is_close(1.0,1.0005) before, at both ends of every body and after; "
                  "non-trivial = distinct programs with a context in which the observed record really changed between two observations")
     c["distribution"] = dict(sorted(dist.items()))
